@@ -941,6 +941,18 @@ class Builder:
                     new = nxt if nxt is not None else new
         if (
             new is not None
+            and nd["op"] == "order_rows"
+            and nd.get("limit") is not None
+            and cfg.get("drop_order_col_prob")
+            and len(schemas[new].names()) > 1
+            and g.boolean(cfg["drop_order_col_prob"])
+        ):
+            # top-k, then a step that no longer asks for (one of) the columns the top-k was ordered by
+            victim = g.pick(nd["cols"])
+            nxt = self.add({"op": "drop_columns", "src": new, "cols": [victim]})
+            new = nxt if nxt is not None else new
+        if (
+            new is not None
             and nd["op"] in ("extend", "select_rows")
             and cfg.get("concat_with_source_prob")
             and set(schemas[new].names()) == set(schemas[nd["src"]].names())
